@@ -119,6 +119,27 @@ def py_eval(expr: str, ns: dict):
         return ('exc', type(e).__name__)
 
 
+def too_big(expr: str, ns: dict) -> bool:
+    """True if evaluating expr would shift by more than 4096 bits somewhere (results of hundreds of megabytes: the
+    comparison is about values, not about the allocator). Sub-expressions are checked innermost first."""
+    import ast as _ast
+    try:
+        tree = _ast.parse(expr, mode='eval')
+    except SyntaxError:
+        return False
+
+    def visit(node) -> bool:
+        for c in _ast.iter_child_nodes(node):
+            if visit(c):
+                return True
+        if isinstance(node, _ast.BinOp) and isinstance(node.op, _ast.LShift):
+            r = py_eval(_ast.unparse(node.right), ns)
+            if r[0] == 'ok' and isinstance(r[1], int) and not isinstance(r[1], bool) and 4096 < r[1] < 2 ** 40:
+                return True
+        return False
+    return visit(tree.body)
+
+
 def make_ns():
     ns: dict = {}
     exec(PRELUDE_PY + F_HEAD, ns)
@@ -210,9 +231,15 @@ def eval_batch(batch):
     from rogw.tranp.errors import Errors
     from rogw.tranp.transpiler.types import Evaluator
     from mc.tranp.session import Session
-    src = PRELUDE_PY + F_HEAD + ''.join(f'\tX{i} = {e}\n' for i, e in enumerate(batch))
     out = []
     ns = make_ns()
+    big = [e for e in batch if too_big(e, ns)]
+    if big:
+        batch = [e for e in batch if e not in big]
+        out += [(e, ('skip', 'shift-beyond-4096-bits'), ('skipped-shift-beyond-4096-bits', '')) for e in big]
+        if not batch:
+            return out
+    src = PRELUDE_PY + F_HEAD + ''.join(f'\tX{i} = {e}\n' for i, e in enumerate(batch))
     try:
         s = Session({'__main__': src})
         mod = s.load('__main__')
@@ -224,7 +251,7 @@ def eval_batch(batch):
             kind = 'app-error' if isinstance(e, Errors.Error) else f'raw:{type(e).__name__}'
             return [(batch[0], py_eval(batch[0], ns), ('load-failed', kind))]
         mid = len(batch) // 2
-        return eval_batch(batch[:mid]) + eval_batch(batch[mid:])
+        return out + eval_batch(batch[:mid]) + eval_batch(batch[mid:])
     emitted = emitted_literals(batch, ns, s if False else None) if _EMIT else {}
     for i, e in enumerate(batch):
         py = py_eval(e, ns)
@@ -287,7 +314,7 @@ def short(v) -> str:
 
 def judge(expr, py, got):
     """Returns None or (signature, what)."""
-    if got[0] == 'refused':
+    if got[0] == 'refused' or got[0].startswith('skipped'):
         return None
     if got[0] == 'load-failed':
         if got[1] == 'app-error':
@@ -342,7 +369,7 @@ def run(ctx):
     return {
         'evaluations': n,
         'distinct_nontrivial': nontriv,
-        'rule': f'all expressions with <= {2 if ctx.quick else 3} operator applications (binary {BIN_OPS}, unary {UN_OPS}, casts {CASTS}, parentheses in every position) over leaves {LEAVES_FULL} (1 op), a reduced leaf set for 2 and 3 ops; distinct by text; non-trivial = at least two operator applications',
+        'rule': f'all expressions with <= {2 if ctx.quick else 3} operator applications (binary {BIN_OPS}, unary {UN_OPS}, casts {CASTS}, parentheses in every position) over leaves {LEAVES_FULL} (1 op), a reduced leaf set for 2 and 3 ops; distinct by text; expressions that shift by more than 4096 (and less than 2**40) bits are not evaluated (outcome skipped-...: results of up to gigabytes; beyond 2**40 Python and the evaluator both fail at once, which is compared); non-trivial = at least two operator applications',
         'samples': uniq[:3] + uniq[len(uniq) // 2: len(uniq) // 2 + 3] + uniq[-3:],
         'outcomes': outcomes,
         'values_agreeing_with_python': agreed,
